@@ -855,3 +855,135 @@ func listedFSMIsStarted(c *core.Ctx, rule string) {
 	c.Check(same, rule, "the active FSM is started under the condition it is listed under", started.Pos(),
 		fmt.Sprintf("newPeer puts the active FSM on peer.fsms under %v, AddPeer starts it under %v: an FSM can be on the list without a goroutine, and peer.stop() (DisposePeer, restart on reconfiguration) then blocks for ever handing it ManualStop", a, b))
 }
+
+// boundTestSeesTheWideSum: a test "does it still fit into the one-octet (two-octet) length" must compare the sum computed
+// in a type wide enough to hold it.  `int(a+b) <= 255` with a, b uint8 adds in uint8 first: the sum has already wrapped,
+// the test is always true, the length field wraps on the wire and the PDU no longer decodes to what was encoded.
+// Rule: no comparison of a widened (or unwidened) narrow unsigned arithmetic result against a constant that the narrow
+// type can never exceed.
+func boundTestSeesTheWideSum(c *core.Ctx, rule string, pkgs ...string) {
+	nCmp := 0
+	for _, rel := range pkgs {
+		for _, f := range c.P.FuncsIn(rel) {
+			if f.Decl.Body == nil || isTestFn(c.P, f) {
+				continue
+			}
+			ast.Inspect(f.Decl.Body, func(nd ast.Node) bool {
+				be, ok := nd.(*ast.BinaryExpr)
+				if !ok {
+					return true
+				}
+				op := be.Op.String()
+				if op != "<=" && op != "<" && op != ">" && op != ">=" {
+					return true
+				}
+				for side := 0; side < 2; side++ {
+					x, k := be.X, be.Y
+					if side == 1 {
+						x, k = be.Y, be.X
+					}
+					kv := core.ConstOf(f.Pkg, k)
+					if kv == nil {
+						continue
+					}
+					// strip widening conversions
+					e := core.Unparen(x)
+					for {
+						cl, isCall := e.(*ast.CallExpr)
+						if !isCall || len(cl.Args) != 1 {
+							break
+						}
+						if tv, has := f.Pkg.TypesInfo.Types[cl.Fun]; !has || !tv.IsType() {
+							break
+						}
+						e = core.Unparen(cl.Args[0])
+					}
+					ar, isAr := e.(*ast.BinaryExpr)
+					if !isAr || (ar.Op.String() != "+" && ar.Op.String() != "*") {
+						continue
+					}
+					if core.ConstOf(f.Pkg, ar) != nil {
+						continue
+					}
+					bt, _ := f.Pkg.TypesInfo.TypeOf(ar).Underlying().(*types.Basic)
+					if bt == nil {
+						continue
+					}
+					var max int64
+					switch bt.Kind() {
+					case types.Uint8:
+						max = 255
+					case types.Uint16:
+						max = 65535
+					default:
+						continue
+					}
+					nCmp++
+					kk, exact := constInt64Val(kv)
+					c.Analysed(f)
+					c.Check(!exact || kk < max, rule, fmt.Sprintf("%s bound test on %s", f.Name(), types.ExprString(ar)), be.Pos(),
+						fmt.Sprintf("the sum is computed in %s and compared with %d, which a %s can never exceed: the test cannot fail, the length wraps instead of the TLV being closed", bt.Name(), kk, bt.Name()))
+				}
+				return true
+			})
+		}
+	}
+	c.Hold(rule, "comparisons of narrow unsigned sums with constants examined", 0, fmt.Sprintf("%d found", nCmp))
+}
+
+func constInt64Val(v interface{ ExactString() string }) (int64, bool) {
+	var i int64
+	_, err := fmt.Sscan(v.ExactString(), &i)
+	return i, err == nil
+}
+
+// allFlagsClearedAfterAllInterfaces: an LSP can owe an acknowledgement on several circuits at once.  clearAllSSNFlags
+// drops the flags of an entry for EVERY interface, so in sendPSNPss it may only run once every interface has been served;
+// inside the per-interface loop it wipes what the interfaces served later still owe (they never send their PSNP and the
+// neighbour retransmits for ever).
+func allFlagsClearedAfterAllInterfaces(c *core.Ctx, rule string) {
+	const isisSrv = "protocols/isis/server"
+	f := c.MustFunc(isisSrv + ".(*lsdb).sendPSNPss")
+	clr := c.P.Func(isisSrv + ".(*lsdbEntry).clearAllSSNFlags")
+	if f == nil || clr == nil {
+		c.Check(clr != nil, rule, "lsdbEntry.clearAllSSNFlags", 0, "function not found")
+		return
+	}
+	c.Analysed(f)
+	reaches := func(g *core.Fn) bool {
+		for _, h := range c.P.ReachableFns(g) {
+			if h == clr {
+				return true
+			}
+		}
+		return false
+	}
+	n := 0
+	var loops int
+	var visit func(nd ast.Node) bool
+	visit = func(nd ast.Node) bool {
+		switch x := nd.(type) {
+		case *ast.RangeStmt:
+			loops++
+			ast.Inspect(x.Body, visit)
+			loops--
+			return false
+		case *ast.ForStmt:
+			loops++
+			ast.Inspect(x.Body, visit)
+			loops--
+			return false
+		case *ast.CallExpr:
+			g := c.P.FnOf(core.Callee(f.Pkg, x))
+			if g == nil || !reaches(g) {
+				return true
+			}
+			n++
+			c.Check(loops == 0, rule, fmt.Sprintf("%s clears all SSN flags (via %s) after the interface loop", f.Name(), g.Obj.Name()), x.Pos(),
+				"the all-interfaces clear runs inside the per-interface loop: the acknowledgements owed on the interfaces served later are dropped before their PSNPs are built")
+		}
+		return true
+	}
+	ast.Inspect(f.Decl.Body, visit)
+	c.Check(n >= 1, rule, f.Name()+" clears the SSN flags it served", f.Decl.Pos(), "no call reaching clearAllSSNFlags found")
+}
